@@ -35,6 +35,8 @@ type Profile struct {
 	Alt                  *Profile // alternative profile used for PAlt percent of the cases
 	PAlt                 int
 	IsAlt                bool
+	InjectAfterOnly      bool // schedule injected calls only after EndBlock / after Commit (engines that serve them while drawing, C19)
+	BlockGasBoundary     bool // now and then a contract-path tx asks for exactly the block gas limit (or one more/less)
 	LiveInject           bool // only prepare fresh valid txs per block; the engine serves them as CheckTx while it drives the primary
 	NonceChaos           bool   // more gaps / stale nonces
 	GovFocus             string // option documents mostly change this parameter
@@ -326,18 +328,23 @@ func (s *GenSource) genInjections(w *World, b *Block) {
 	t := s.t
 	n := len(b.Txs)
 	posGen := func(label string) int { return unif(t, n+4, label) - 1 } // -1 .. n+2
+	if s.P.InjectAfterOnly {
+		posGen = func(label string) int { return n + 1 + unif(t, 2, label) }
+	}
 	// (a) mempool checks of the block's own txs (as a real mempool does), at or before their delivery, or later as duplicates
 	for i, tx := range b.Txs {
 		if pct(t, 60, "checkOwn") {
 			pos := i
-			switch unif(t, 4, "ownPos") {
-			case 0:
+			switch k := unif(t, 4, "ownPos"); {
+			case s.P.InjectAfterOnly:
+				pos = posGen("ownPosAfter")
+			case k == 0:
 				pos = -1
-			case 1:
+			case k == 1:
 				pos = unif(t, i+1, "ownPosBefore")
-			case 2:
+			case k == 2:
 				pos = i
-			case 3:
+			default:
 				pos = posGen("ownPosAny")
 			}
 			b.Inject = append(b.Inject, Injected{Pos: pos, Kind: "check", Tx: tx})
@@ -677,6 +684,16 @@ func (s *GenSource) genTx(w *World, b *Block) ([]byte, string) {
 	case "withdraw":
 		sp.typ = ctypes.TRX_WITHDRAW
 		sp.from = pick(t, s.all, "from")
+		// mostly somebody who has something to withdraw
+		var earners []*Actor
+		for _, a := range s.all {
+			if rw, ok := w.Rewards[ak(a.Addr)]; ok && !rw.Cum.IsZero() {
+				earners = append(earners, a)
+			}
+		}
+		if len(earners) > 0 && pct(t, 70, "withdrawByEarner") {
+			sp.from = pick(t, earners, "earner")
+		}
 		sp.to = make([]byte, 20)
 		cum := u256(0)
 		if rw, ok := w.Rewards[ak(sp.from.Addr)]; ok {
@@ -1048,6 +1065,9 @@ func (s *GenSource) finish(w *World, sp *txSpec) ([]byte, string) {
 	gas := sp.gas
 	if s.P.VaryGas && !sp.contract {
 		gas = uint64(pick(t, []int{0, 1, 2, 10}, "gasExtra")) + p.MinTrxGas
+	}
+	if s.P.BlockGasBoundary && sp.contract && pct(t, 4, "blockGasBoundary") {
+		gas = pick(t, []uint64{25_000_000, 24_999_999, 25_000_001}, "blockGas")
 	}
 	signer := sp.from
 	chain := w.ChainID
